@@ -354,12 +354,16 @@ func calcStatusCode(cfg *ResponseConfig, a *asset, segmentPart string, nowMS int
 		// Next we need to find the number after wrap
 		// For that we need to find the first segment nr after wrapStart
 		// Use nowMS = cycleStart to look up the latest segment published at that time
-		firstNr := 0
+		// Segment numbers in URLs are offset by startNumber, the generated timeline counts from 0.
+		firstNr := cfg.getStartNr()
 		if nrWraps > 0 {
 			lastNr := findLastSegNr(cfg, a, wrapStartS*1000, segMeta.rep)
-			firstNr = lastNr + 1
+			firstNr += lastNr + 1
 		}
-		segTime := findSegStartTime(a, cfg, firstNr, segMeta.rep)
+		segTime, err := findSegStartTime(a, cfg, firstNr, segMeta.rep)
+		if err != nil {
+			return 0, fmt.Errorf("findSegStartTime: %w", err)
+		}
 		if segTime < wrapStartS*repTimescale {
 			firstNr += 1
 		}
@@ -380,16 +384,19 @@ func findLastSegNr(cfg *ResponseConfig, a *asset, nowMS int, rep *RepData) int {
 	return timeLineEntries.lastNr()
 }
 
-func findSegStartTime(a *asset, cfg *ResponseConfig, nr int, rep *RepData) int {
+func findSegStartTime(a *asset, cfg *ResponseConfig, nr int, rep *RepData) (int, error) {
 	wrapLen := len(rep.Segments)
 	startNr := cfg.getStartNr()
 	nrAfterStart := int(nr) - startNr
+	if nrAfterStart < 0 {
+		return 0, fmt.Errorf("segment number %d is before startNumber %d", nr, startNr)
+	}
 	nrWraps := nrAfterStart / wrapLen
 	relNr := nrAfterStart - nrWraps*wrapLen
 	wrapDur := a.LoopDurMS * rep.MediaTimescale / 1000
 	wrapTime := nrWraps * wrapDur
 	seg := rep.Segments[relNr]
-	return wrapTime + int(seg.StartTime)
+	return wrapTime + int(seg.StartTime), nil
 }
 
 func repInReps(segmentPart string, reps []string) bool {
